@@ -892,7 +892,7 @@ func (e *Engine) strToSlice(s Str, et types.Type) Slice {
 	n := s.Len()
 	o := e.newArrayObj(et, n)
 	for i := 0; i < n; i++ {
-		o.cells[i] = s.At(i)
+		o.put(i, s.At(i))
 	}
 	return Slice{obj: o, len: n, cap: n, esz: 1}
 }
